@@ -338,6 +338,22 @@ def dataonly(tier):
     return out
 
 
+def bignames(tier):
+    """names at the 16-bit identifier limit: 65534 bytes is the longest name a node can carry (read back), 65535 and
+    65536 bytes have to be refused (or read back) — never stored under another name; option and section, brace style"""
+    out = []
+    for L in (65534, 65535, 65536):
+        nm = b"n" * L
+        for kind, text, forest in (("opt", nm + b" = 1\n", [(nm, b"1", None)]),
+                                   ("sect", b"a=1\n" + nm + b" {\nk=v\n}\n", [(b"a", b"1", None), (nm, None, [(b"k", b"v", None)])])):
+            lines = [fmt_line("brace"), "p root .", "p input " + hx(text)]
+            if L < 65535:
+                lines.append("p expect " + forest_text(forest))
+            lines += ["p node", "p end"]
+            out.append(("bigname:%d:%s" % (L, kind), lines))
+    return out
+
+
 def dotted(tier):
     """names with the path separator '.' (permitted by the name flags, outside `Render.admissible`): the
     parser refuses them, see the known finding `dot-in-name`"""
@@ -607,7 +623,7 @@ def layouts(tier, seed, scale):
 def scripts(tier, seed, scale=1):
     return stat_all(exhaustive(tier) + random_forests(tier, seed, scale) + dotted(tier) + onequote(tier, seed)
                     + layouts(tier, seed, scale) + flagsets(tier, seed, scale) + bigvalues(tier) + valsweep(tier)
-                    + pathfill(tier) + dataonly(tier))
+                    + pathfill(tier) + dataonly(tier) + bignames(tier))
 
 
 def nontrivial(script, c_lines):
@@ -697,6 +713,14 @@ class _XX:
                          "x reset", "x read log",
                          "x render %s %d %s %s" % (style, d1, f1, h1), "x open", "x read", "x end"]
                 out.append(("xx:%s:%d" % (style, i), lines))
+            # a read REPLACES the target: an empty or comment-only text read afterwards leaves no children
+            for j, (d1, f1, h1) in enumerate(items[:6]):
+                for k, blank in enumerate(("", "\n\n", "# only a comment\n", "  \n#c\n \t\n")):
+                    lines = ["x new 255 255", "x fmt " + ("null" if desc is None else hx(desc)),
+                             "x render %s %d %s %s" % (style, d1, f1, h1), "x open", "x read",
+                             "x file " + hx(blank), "x reset", "x read", "x read",
+                             "x render %s %d %s %s" % (style, d1, f1, h1), "x reset", "x read", "x end"]
+                    out.append(("xx:empty:%s:%d:%d" % (style, j, k), lines))
         return out
 
     @staticmethod
